@@ -568,7 +568,10 @@ impl<'b, C> Decode<'b, C> for core::time::Duration {
             0 secs  => u64 ; "Duration::secs"
             1 nanos => u32 ; "Duration::nanos"
         }
-        Ok(core::time::Duration::new(secs, nanos))
+        // `Duration::new` panics if the carry from `nanos` overflows the seconds.
+        let carry = u64::from(nanos / 1_000_000_000);
+        let secs  = secs.checked_add(carry).ok_or_else(|| Error::message("duration overflow"))?;
+        Ok(core::time::Duration::new(secs, nanos % 1_000_000_000))
     }
 }
 
